@@ -40,17 +40,30 @@ def l1_batch(seed, count, nops, base=0, **kw):
     return out
 
 
-def reloc_batch(seed, count, nops, base=0, width=16384):
-    return [gen.gen_reloc(seed * 1000 + 800 + i, idbase=(base + i) * IDSTEP, nops=nops, width=width, name="reloc_%d" % i)
+def reloc_batch(seed, count, nops, base=0, width=16384, kts=("bytes",)):
+    return [gen.gen_reloc(seed * 1000 + 800 + i, idbase=(base + i) * IDSTEP, nops=nops, width=width, name="reloc_%d" % i, kt=kts[i % len(kts)])
+            for i in range(count)]
+
+
+def large_batch(seed, count, nops, base=0):
+    """small universes whose values all live on the shared large free list (first fit, several sizes)"""
+    return [gen.gen_l2(seed * 1000 + 950 + i, idbase=(base + i) * IDSTEP, nops=nops, nkeys=6, nb=("BucketsSize", 4),
+                       vals=[1000, 1100, 1500, 2000, 3000, 4000, 0, 20], klens=[8, 10, 12, 900, 1500, 9], name="l2large_%d" % i)
             for i in range(count)]
 
 
 def wl_core(tier, seed):
     if tier == "quick":
         return [("l2", l2_batch(seed, 10, nops=90), dict(per_tlc=2, tlc_jobs=6)),
+                # the same kind of history in a build WITHOUT debug assertions: what a release user gets
+                # (a debug assertion that fires first would hide the corruption behind a panic)
+                ("l2large_fast", large_batch(seed, 4, 120, base=80), dict(per_tlc=1, tlc_jobs=4, profile="fast")),
+                ("l2large", large_batch(seed + 1, 2, 120, base=90), dict(per_tlc=1, tlc_jobs=2)),
                 ("reloc", reloc_batch(seed, 4, 120, base=40), dict(per_tlc=1, tlc_jobs=4)),
                 ("l1", l1_batch(seed, 3, 3000, base=20), dict(per_tlc=1, tlc_jobs=3, max_slots=300))]
     return [("l2", l2_batch(seed, 60, nops=200), dict(per_tlc=4, tlc_jobs=8)),
+            ("l2large_fast", large_batch(seed, 16, 300, base=600), dict(per_tlc=2, tlc_jobs=8, profile="fast")),
+            ("l2large", large_batch(seed + 1, 8, 300, base=650), dict(per_tlc=2, tlc_jobs=4)),
             ("reloc", reloc_batch(seed, 24, 400, base=300), dict(per_tlc=2, tlc_jobs=8)),
             ("reloc2m", reloc_batch(seed + 7, 6, 300, base=400, width=2097152), dict(per_tlc=1, tlc_jobs=6)),
             ("l1", l1_batch(seed, 6, 100000, base=100, reopen_every=20000, huge=True), dict(per_tlc=1, tlc_jobs=6, max_slots=300, xmx="8g", op_timeout=60)),
@@ -141,10 +154,15 @@ def wl_fault(tier, seed):
     for shape in ("val", "key", "htx"):
         ths = gen.fault_thresholds(shape, 0 if tier == "quick" else 24, rng)
         if tier == "quick":
-            ths = rng.sample(ths, 7)
+            ths = rng.sample(ths, 10)
         for t in ths:
-            out.append(gen.gen_fault(seed * 1000 + 400 + i, idbase=i * IDSTEP, shape=shape, threshold=t,
-                                     syncop=["flush", "sync_all", "sync_data"][i % 3], name="fault_%s_%d" % (shape, t)))
+            syncop = ["flush", "sync_all", "sync_data", "db_sync_all", "db_sync_data"][i % 5]
+            second = None
+            if syncop.startswith("db_") or i % 4 == 0:
+                # second map: visited after "m" (string registry / later name) or before it
+                second = [("z", "string"), ("a", "bytes"), ("n", "u64"), ("m2", "bytes")][i % 4]
+            out.append(gen.gen_fault(seed * 1000 + 400 + i, idbase=i * IDSTEP, shape=shape, threshold=t, syncop=syncop,
+                                     second=second, name="fault_%s_%d" % (shape, t)))
             i += 1
     return [("fault", out, dict(per_tlc=4 if tier == "quick" else 8, tlc_jobs=8, max_slots=300))]
 
@@ -231,7 +249,11 @@ def wl_conv(tier, seed):
         kt = ["u64", "i64", "vu64"][i % 3]
         nb = [("BucketsSize", 1), ("BucketsSize", 2), ("Capacity", 40)][(i // 3) % 3]
         typed.append(gen.gen_typed(seed * 1000 + 60 + i, idbase=(100 + i) * IDSTEP, kt=kt, nb=nb, nops=200 if tier == "quick" else 600, name="typed_%s_%d" % (kt, i)))
-    return [("conv", convs, dict(per_tlc=1, tlc_jobs=8)), ("typed", typed, dict(per_tlc=3, tlc_jobs=8))]
+    # byte/string keys that collide, fill their slots exactly and are relocated (same key <=> same bytes
+    # must survive record relocation and slot reuse)
+    rel = reloc_batch(seed + 11, 4 if tier == "quick" else 24, 150 if tier == "quick" else 400, base=300, kts=("string", "bytes"))
+    return [("conv", convs, dict(per_tlc=1, tlc_jobs=8)), ("typed", typed, dict(per_tlc=3, tlc_jobs=8)),
+            ("reloc", rel, dict(per_tlc=1, tlc_jobs=8))]
 
 
 def wl_golden(tier, seed):
@@ -269,7 +291,11 @@ def wl_layout(tier, seed):
               for i, j in enumerate(range(0, len(lens), per))]
     bigs = [gen.gen_sweep(seed * 1000 + 500 + i, idbase=(500 + i) * IDSTEP, lens=big[j:j + 12], name="sweepbig_%d" % i)
             for i, j in enumerate(range(0, len(big), 12))]
+    inpl = [gen.gen_inplace(seed * 1000 + 900 + i, idbase=(800 + i) * IDSTEP, slots=sl, name="inplace_%d" % i)
+            for i, sl in enumerate([[16, 24, 32, 48], [64, 128, 256], [384, 1024, 1152], [16512]] if tier == "quick" else
+                                   [[16, 24, 32], [48, 64, 80], [96, 112, 128], [256, 384], [512, 640], [768, 896], [1024, 1152], [1280, 2048], [16512], [16640, 131200]])]
     return [("probe", [probe], dict(per_tlc=1, tlc_jobs=1, xmx="6g", tlc_timeout=7200)),
+            ("inplace", inpl, dict(per_tlc=1, tlc_jobs=8, op_timeout=60)),
             ("sweep", sweeps, dict(per_tlc=1, tlc_jobs=8)),
             ("sweepbig", bigs, dict(per_tlc=1, tlc_jobs=8, xmx="4g", op_timeout=60))] + wl_core(tier, seed)[:1]
 
